@@ -91,6 +91,9 @@ def is_strlike(v):
     return isinstance(v, str) or (isinstance(v, SV) and isinstance(v.ty, TStr))
 
 
+_PY_WHITESPACE = [0x9, 0xA, 0xB, 0xC, 0xD, 0x1C, 0x1D, 0x1E, 0x1F, 0x20, 0x85, 0xA0, 0x1680] + list(range(0x2000, 0x200B)) + [0x2028, 0x2029, 0x202F, 0x205F, 0x3000]
+
+
 def opaque_str(I, why):
     I.ctx.ghost["nondet"] = True
     I.ctx.note("string built by %s is an unconstrained string (text content not modelled)" % why)
@@ -1266,6 +1269,9 @@ def call_method(I, obj, name, args, kwargs):
         if name == "insert":
             obj.items.insert(_const_index(args[0]), args[1])
             return None
+        if name == "reverse" and not args:
+            obj.items.reverse()
+            return None
     if isinstance(obj, VDict) and getattr(obj, "sym", None) is not None:
         return call_method(I, obj.sym, name, args, kwargs)
     if isinstance(obj, VDict):
@@ -1316,6 +1322,24 @@ def call_method(I, obj, name, args, kwargs):
             return None
         if name == "copy":
             return VSet(obj.items)
+    if is_strlike(obj) and not isinstance(obj, str) and name in ("strip", "lstrip", "rstrip") and not args and not kwargs:
+        # s.strip(): the unique t with s == p + t + q, p and q whitespace only, t not starting (ending) with whitespace
+        st = Z.Val.s(ctx.to_val(obj).t)
+        one_ws = z3.Union(*[z3.Re(z3.StringVal(chr(c))) for c in _PY_WHITESPACE])       # exactly the characters with str.isspace()
+        ws = z3.Star(one_ws)
+        p_, t_, q_ = fresh("strip_p", z3.StringSort()), fresh("strip_t", z3.StringSort()), fresh("strip_q", z3.StringSort())
+        is_ws = lambda c: z3.InRe(c, one_ws)
+        facts = [st == z3.Concat(p_, t_, q_), z3.InRe(p_, ws), z3.InRe(q_, ws)]
+        if name in ("strip", "lstrip"):
+            facts.append(z3.Or(z3.Length(t_) == 0, z3.Not(is_ws(z3.SubString(t_, 0, 1)))))
+        else:
+            facts.append(z3.Length(p_) == 0)
+        if name in ("strip", "rstrip"):
+            facts.append(z3.Or(z3.Length(t_) == 0, z3.Not(is_ws(z3.SubString(t_, z3.Length(t_) - 1, 1)))))
+        else:
+            facts.append(z3.Length(q_) == 0)
+        ctx.assume(z3.And(*facts))
+        return SV(Z.mk_str(t_), TStr())
     if is_strlike(obj) and name == "replace" and len(args) == 2 and not (isinstance(obj, str) and all(isinstance(a, str) for a in args)):
         st = Z.Val.s(ctx.to_val(obj).t)
         p, r = [Z.Val.s(ctx.to_val(a).t) if not isinstance(a, str) else z3.StringVal(a) for a in args]
